@@ -408,3 +408,70 @@ func RefNBT(b []byte, pos int, tag byte, depth int) (status, end int) {
 // StubArgIs reports whether the named stub was last called with exactly the
 // pointer p (engine only; true natively).
 func StubArgIs(name string, p any) bool { return true }
+
+// ---------------------------------------------------------------------------
+// Generated well-formed NBT documents (DESIGN 6, "Harness B"): the shape is
+// chosen by Choice (all 12 tags at every node, bounded node budget and depth),
+// numeric payloads, names and array elements are arbitrary.
+
+// GenNBT appends the payload of one value of type tag to out and returns it.
+// budget bounds the number of value nodes still available.
+func GenNBT(out []byte, tag byte, depth int, budget *int) []byte {
+	*budget--
+	nb := func(n int) { out = append(out, Bytes(n)...) }
+	count := func() int { // children of a container: up to 2 at the root, 1 deeper
+		if depth >= 3 || *budget <= 0 {
+			return 0
+		}
+		if depth == 0 {
+			return Choice(3)
+		}
+		return Choice(2)
+	}
+	switch tag {
+	case 1:
+		nb(1)
+	case 2:
+		nb(2)
+	case 3, 5:
+		nb(4)
+	case 4, 6:
+		nb(8)
+	case 7, 11, 12:
+		n := Choice(2 + Tier())
+		w := 1
+		if tag == 11 {
+			w = 4
+		} else if tag == 12 {
+			w = 8
+		}
+		out = append(out, 0, 0, 0, byte(n))
+		nb(n * w)
+	case 8:
+		n := Choice(2 + Tier())
+		out = append(out, 0, byte(n))
+		nb(n)
+	case 9:
+		n := count()
+		et := byte(Choice(13))
+		if n > 0 && et == 0 {
+			et = 1
+		}
+		out = append(out, et, 0, 0, 0, byte(n))
+		for i := 0; i < n; i++ {
+			out = GenNBT(out, et, depth+1, budget)
+		}
+	case 10:
+		n := count()
+		for i := 0; i < n; i++ {
+			t := byte(1 + Choice(12))
+			out = append(out, t)
+			kn := Choice(2)
+			out = append(out, 0, byte(kn))
+			nb(kn)
+			out = GenNBT(out, t, depth+1, budget)
+		}
+		out = append(out, 0)
+	}
+	return out
+}
